@@ -62,6 +62,9 @@ def syncDecoratorObject (c : DCfg) (cache : Cache) (rule : ParentRes) (parent : 
       let observed := getAttachments c cache parent
       let rel ← getRelatedObjects c.customize rule.namespaced c.related cache parent h.customize
       match rel with
+      | .error (.tooMany _) =>
+          -- the decorator's `sync` has no 429 handling: a plain error
+          pure ({ after := [], memo := h.memo, result := .error (.fail "customize hook failed: too many requests") }, h.customize)
       | .error e => pure ({ after := [], memo := h.memo, result := .error e }, h.customize)
       | .ok (related, cust) =>
         let hk ← callHookDecorator c parent observed related
